@@ -346,6 +346,10 @@ class ErrorHandler:
     @staticmethod
     def _update_error_with_char_pos(error_object):
         # This part is optional as you can always generate these as needed.
+        if 'char_index' in error_object:
+            # Already located: an issue can pass through context decoration more than once (e.g. the basic-check issues
+            # of HedValidator.validate), and the location suffix must be added to its message only once.
+            return
         start, end = ErrorHandler._get_tag_span_to_error_object(error_object)
         if start is not None:
             # silence warning in pycharm
